@@ -13,6 +13,7 @@ import json
 import os
 import re
 from .. import core
+from . import _c17_table as table
 
 LEVEL = "model_checking"
 FIELDS = (("n", "n"), ("m", "tracked"), ("sel", "sel"), ("quit", "quit"), ("search", "search"),
@@ -98,6 +99,12 @@ def check(run, scen=None):
     suffix = "_thorough" if thorough else ""
     replaying = scen is not None
     m = None
+    dyn_pool, dyn_future = None, None
+    if not replaying:
+        core.build_jet()
+        dyn_pool = cf.ThreadPoolExecutor(max_workers=2)
+        dyn_future = dyn_pool.submit(table.check, run, thorough)   # keys + data changes + frames (Table.tla)
+        apa_future = dyn_pool.submit(table.apalache, run)          # informative: every table size
     if not replaying:
         # M: exhaustive search of the specification; invariant and action properties
         m = core.tlc_ok("mc/MC_Tui", cfg=f"mc/MC_Tui{suffix}.cfg", xmx="3g", timeout=1200, workers=2)
@@ -116,7 +123,7 @@ def check(run, scen=None):
         fan = [[k, 0] for k in sorted(alpha[0]["alphabet"])] + [["Tick", w] for w in sorted(alpha[0]["ticks"])]
         scen = [{"n": h["n"], "m": h["m"], "keys": h["keys"], "fan": fan} for h in hists]
     # replay + record, streamed into shard files
-    nshards = 1 if replaying else (8 if thorough else 4)
+    nshards = 1 if replaying else (4 if thorough else 3)
     paths = [os.path.join(run.work, f"trace.{i}.ndjson") for i in range(nshards)]
     files = [open(p, "w") for p in paths]
     counts = [0] * nshards
@@ -195,9 +202,20 @@ def check(run, scen=None):
                 "(state, event)",
     })
     if m is not None:
-        run.cov["states"] = m.distinct          # reachable states of Tui.tla (all tables)
-        run.cov["transitions"] = m.generated    # transitions generated by the exhaustive search
-        run.cov["spec_depth"] = m.depth
+        dyn = dyn_future.result()
+        run.cov["apalache"] = apa_future.result()
+        dyn_pool.shutdown()
+        run.assumptions += dyn.pop("assumptions")
+        run.cov["samples"] += dyn.pop("samples")
+        run.cov["table"] = dyn
+        run.cov["exhaustive"] = run.cov["exhaustive"] and dyn["exhaustive"]
+        run.cov["fixed_table"] = {"states": m.distinct, "transitions": m.generated, "depth": m.depth}
+        replayed = [g for n, g in dyn["graphs"].items() if not n.endswith("_only")]
+        # reachable states / generated transitions of Tui.tla (fixed tables) and of the replayed
+        # configurations of Table.tla (keys, data changes, frames)
+        run.cov["states"] = m.distinct + sum(g["states"] for g in replayed)
+        run.cov["transitions"] = m.generated + sum(g["transitions"] for g in replayed)
+        run.cov["traces_validated_against_impl"] += sum(v["scripts"] for v in dyn["replay"].values())
         if pure_mismatch == 0 and n_rej == 0 and len(before_states) != m.distinct:
             raise core.ToolError(f"conformant replay but {len(before_states)} implementation states for "
                                  f"{m.distinct} specification states")
@@ -215,8 +233,14 @@ def check(run, scen=None):
 def replay(run, path):
     with open(path) as f:
         doc = json.load(f)
+    cases = doc.get("cases", [])
+    if cases and cases[0].get("part") == "table":
+        stats = table.replay(run, cases)
+        run.cov.update({"traces_validated_against_impl": len(cases), "exhaustive": False,
+                        "samples": [cases[0]["driver_steps"]], "table": stats})
+        return run.finish()
     scen = [{"n": c["n"], "m": c.get("m", 0), "keys": c["keys"][:-1], "fan": c["keys"][-1:]}
-            for c in doc.get("cases", []) if c.get("keys")]
+            for c in cases if c.get("keys")]
     if not scen:
         raise core.ToolError("replay file without cases")
     check(run, scen)
